@@ -7,10 +7,15 @@
    files, safe links --, whatever the recorded permissions of the directories, yields
    exactly the described tree: contents, modes, times, targets; proof in P_FsExtract,
    P_ReaderExtract, P_CliExtract, P_CliTree); and a computed instance on real archive
-   bytes.  Not proved (decided on every run by the reference oracle of the check on
-   the real tool and by the correspondence): replacement of existing files under the
-   overwrite policy, options i / w=DIR, the p command, MacOS members. *)
+   bytes.  Also proved (second part of this file; the
+   statements are those of P_CliOverwrite.v, P_CliTreeGen.v, P_CliFlat.v, P_CliWdir.v,
+   P_CliPrint.v, P_CliFilterSkip.v, re-exported under the same names): the overwrite
+   policy, options i and w=DIR, the p command, the filter loop.  Not proved (decided on
+   every run by the reference oracle on the real tool and by the correspondence): MacOS
+   members, the tree theorem for a wildcard-selected sub-sequence, w=DIR with more than
+   one missing path component. *)
 From Lhasa Require Import Base Generated Header Fs FsRun Glob Reader CliFilter CliExtract CliMain InputStream ListOut P_ListOut P_FsExtract P_CliExtract P_CliTree.
+From Lhasa Require P_CliOverwrite P_CliTreeGen P_CliFlat P_CliWdir P_CliPrint P_CliFilterSkip.
 Local Open Scope N_scope.
 
 (* '*' matches any run of bytes, '?' exactly one, any other byte itself (case-sensitive) *)
@@ -101,8 +106,76 @@ Example extraction_instance :
     node_at (cr_fs r) [100;47;108] = Some (3, 0, 0, [97;46;116;120;116]).                         (* d/l -> a.txt *)
 Proof. eexists. split; [vm_compute; reflexivity|]. repeat split; vm_compute; reflexivity. Qed.
 
+(* ====== overwrite policy, options, print, filter (statements: see the P_ files) ======
+
+   An archived file replaces an existing regular file iff the policy in force says so
+   (P_CliOverwrite.v; `replaced` = the directory entry becomes File own mode time bytes of
+   the archive, `asked` = the prompt was shown k times for undecisive lines):
+     overwrite_all          policy ALL (options f, q, q0, q1, q2: options_force)  -> replaced
+     overwrite_skip         policy SKIP            -> filesystem untouched, "Skipped" line
+     overwrite_answer_yes   prompt, answer y / Y   -> replaced, options unchanged
+     overwrite_answer_all   prompt, answer a / A   -> replaced, policy becomes ALL
+     overwrite_answer_no    prompt, n / N / empty  -> filesystem and stdout identical
+     overwrite_answer_skip  prompt, s / S          -> filesystem identical, policy SKIP
+     overwrite_answer_eof   prompt, end of input   -> exit 255, filesystem identical *)
+Theorem overwrite_all : ltac:(let t := type of P_CliOverwrite.overwrite_all in exact t).
+Proof. exact P_CliOverwrite.overwrite_all. Qed.
+Theorem overwrite_skip : ltac:(let t := type of P_CliOverwrite.overwrite_skip in exact t).
+Proof. exact P_CliOverwrite.overwrite_skip. Qed.
+Theorem overwrite_answer_yes : ltac:(let t := type of P_CliOverwrite.overwrite_answer_yes in exact t).
+Proof. exact P_CliOverwrite.overwrite_answer_yes. Qed.
+Theorem overwrite_answer_all : ltac:(let t := type of P_CliOverwrite.overwrite_answer_all in exact t).
+Proof. exact P_CliOverwrite.overwrite_answer_all. Qed.
+Theorem overwrite_answer_no : ltac:(let t := type of P_CliOverwrite.overwrite_answer_no in exact t).
+Proof. exact P_CliOverwrite.overwrite_answer_no. Qed.
+Theorem overwrite_answer_skip : ltac:(let t := type of P_CliOverwrite.overwrite_answer_skip in exact t).
+Proof. exact P_CliOverwrite.overwrite_answer_skip. Qed.
+Theorem overwrite_answer_eof : ltac:(let t := type of P_CliOverwrite.overwrite_answer_eof in exact t).
+Proof. exact P_CliOverwrite.overwrite_answer_eof. Qed.
+Theorem options_force : ltac:(let t := type of P_CliOverwrite.options_force in exact t).
+Proof. exact P_CliOverwrite.options_force. Qed.
+Theorem options_default : ltac:(let t := type of P_CliOverwrite.options_default in exact t).
+Proof. exact P_CliOverwrite.options_default. Qed.
+
+(* w=DIR: the forest theorem under a base location (extract_archive_below), and with DIR
+   missing: DIR is created 0755 & ~umask by the first make_parent_directories call and
+   holds exactly the described nodes (one missing component) *)
+Theorem extract_archive_below : ltac:(let t := type of P_CliTreeGen.extract_archive_below in exact t).
+Proof. exact P_CliTreeGen.extract_archive_below. Qed.
+Theorem extract_archive_wdir_created : ltac:(let t := type of P_CliWdir.extract_archive_wdir_created in exact t).
+Proof. exact P_CliWdir.extract_archive_wdir_created. Qed.
+
+(* option i: every file and safe link lands directly in the target directory under its
+   last name component; directory entries are passed over *)
+Theorem extract_archive_flat : ltac:(let t := type of P_CliFlat.extract_archive_flat in exact t).
+Proof. exact P_CliFlat.extract_archive_flat. Qed.
+
+(* p: nothing touches the filesystem; stdout gains, member by member in archive order,
+   the banner "::::::::\n<sanitised path>\n::::::::\n" (omitted at quiet level 2) followed
+   by exactly the member's bytes; links give their "Symbolic Link a -> b" line *)
+Theorem print_archive_output : ltac:(let t := type of P_CliPrint.print_archive_output in exact t).
+Proof. exact P_CliPrint.print_archive_output. Qed.
+
+(* the filter loop passes over exactly the members no pattern matches *)
+Theorem filter_next_file_skips : ltac:(let t := type of P_CliFilterSkip.filter_next_file_skips in exact t).
+Proof. exact P_CliFilterSkip.filter_next_file_skips. Qed.
+
 Print Assumptions glob_correct.
 Print Assumptions wildcards_select_exactly.
 Print Assumptions extraction_instance.
 Print Assumptions extract_archive_reproduces_tree.
 Print Assumptions extracted_items_are_there.
+Print Assumptions overwrite_all.
+Print Assumptions overwrite_skip.
+Print Assumptions overwrite_answer_yes.
+Print Assumptions overwrite_answer_all.
+Print Assumptions overwrite_answer_no.
+Print Assumptions overwrite_answer_skip.
+Print Assumptions overwrite_answer_eof.
+Print Assumptions options_force.
+Print Assumptions options_default.
+Print Assumptions extract_archive_below.
+Print Assumptions extract_archive_wdir_created.
+Print Assumptions extract_archive_flat.
+Print Assumptions print_archive_output.
+Print Assumptions filter_next_file_skips.
